@@ -366,6 +366,24 @@ pub fn run(tier: Tier) -> i32 {
                 }
                 nt += 257;
             }
+            // multi-byte prefix forms (also the non-shortest spellings a parser accepts: 82 00 05, 81 05, ff 05 00) followed by
+            // data: the length is what the prefix says, whatever stands behind it
+            if matches!(b0, 0x81 | 0x82 | 0xff | 0xf0..=0xf9 | 0x7f | 0x80 | 0x00) {
+                for b1 in 0..=255u8 {
+                    for b2 in 0..=255u8 {
+                        for data in [&[0xaau8][..], &[0xaa, 0xbb, 0xcc, 0xdd], &[0x00, 0x00, 0x01], &[0xff, 0xff, 0xff, 0xff, 0xff]] {
+                            let mut s = vec![b0, b1, b2];
+                            s.extend_from_slice(data);
+                            let r = check_bytes(style, &s);
+                            if r.is_err() {
+                                ctx.record(r, st);
+                            }
+                        }
+                    }
+                }
+                st.enumerated(65536 * 4, 65536 * 4);
+                st.class_n(&format!("{style}:every-3-byte-prefix-string-followed-by-data"), 65536 * 4);
+            }
             // all 65 792 strings with this first byte are distinct by construction; count them without hashing each
             st.enumerated(nt, nt);
             st.class_n(&format!("{style}:arbitrary-prefix-strings"), nt + 1);
@@ -384,7 +402,7 @@ pub fn run(tier: Tier) -> i32 {
     ];
     ctx.finish(
         stats,
-        "enumeration: every representable length of each style x trailing data {none, 1 byte, 5 pseudo-random bytes, exactly n bytes}; 19 representative lengths per style x every amount of data 0..=1100 behind the prefix plus 4095 / 4096 / 65535..65537 / 65791 / 65792 / 100000; every length x 8 constant byte values (ff, 00, 7f, 80, 81, 82, 1f, f0) as 3 / 4 / 6 bytes of data; every Tlv / Adpu length x 11 amounts derived from the length (bytes swapped +-1, high byte, low byte, half, n-1, n+1, 65535-n, n^ff, n+256); every byte string of length <= 3 through each parser. non-trivial = length >= 1 / non-empty string; distinct by (style, length, trailing) resp. (style, bytes)",
+        "enumeration: every representable length of each style x trailing data {none, 1 byte, 5 pseudo-random bytes, exactly n bytes}; 19 representative lengths per style x every amount of data 0..=1100 behind the prefix plus 4095 / 4096 / 65535..65537 / 65791 / 65792 / 100000; every length x 8 constant byte values (ff, 00, 7f, 80, 81, 82, 1f, f0) as 3 / 4 / 6 bytes of data; every Tlv / Adpu length x 11 amounts derived from the length (bytes swapped +-1, high byte, low byte, half, n-1, n+1, 65535-n, n^ff, n+256); every byte string of length <= 3 through each parser, those beginning with a multi-byte marker (81, 82, ff, f0..f9) also followed by four data patterns (non-shortest spellings such as 82 00 05 included). non-trivial = length >= 1 / non-empty string; distinct by (style, length, trailing) resp. (style, bytes)",
         &["Reference prefix functions (this file) transcribe ZVT/BER length rules; lengths above a style's range are outside the property and not generated", "LLVAR strings with non-F high or non-decimal low nibbles and BER first bytes 0x80/0x83.. are only required not to panic"],
         true,
     )
